@@ -25,7 +25,7 @@ type c01Op struct {
 	RH    int    `json:"rh,omitempty"`
 	Tag   int    `json:"tag,omitempty"`
 	Empty bool   `json:"empty,omitempty"`
-	Exp   bool   `json:"exp,omitempty"` // retained message already expired
+	Exp   bool   `json:"exp,omitempty"`   // retained message already expired
 	Share bool   `json:"share,omitempty"` // provider "broker", v5 sessions: the filter goes on the wire as $share/g<s>/<filter>
 }
 
@@ -386,7 +386,8 @@ func (p *c01Prop) Coq(ci interface{}, oi interface{}) string {
 		case "unsub":
 			hs = append(hs, fmt.Sprintf("(HOp (OUnsub %s %d) None)", cBytes([]byte(op.F)), op.S))
 		case "ret":
-			hs = append(hs, fmt.Sprintf("(HOp (ORetain %s (mkMsg %d %d %s) %s) None)", cBytes([]byte(op.F)), op.Tag, op.QoS, cBool(op.Exp), cBool(op.Empty)))
+			// topics/mem replaces a QoS 0 retained message in two steps under its lock, the lock-free index in one store
+			hs = append(hs, fmt.Sprintf("(HOp (ORetain %s (mkMsg %d %d %s) %s %s) None)", cBytes([]byte(op.F)), op.Tag, op.QoS, cBool(op.Exp), cBool(op.Empty), cBool(c.Provider != "mem")))
 			if c.Provider == "broker" {
 				// sent by a client, a retained publish (also the empty one that clears) is routed like any other
 				hs = append(hs, fmt.Sprintf("(HPub %s %s)", cBytes([]byte(op.F)), cInts(st.Recv)))
